@@ -622,6 +622,20 @@ def interp_sorted(chk, prog, rule: str, only_func: str) -> int:
             out.append((v, d))
         return out
 
+    def pre_sort_endpoint_appends(name, at, depth=0):
+        """np.append definitions of `name` reaching node `at` (the permutation) that add an element read at position 0 / -1"""
+        out = []
+        if depth > 6:
+            return out
+        for d in flow.defs_reaching(name, at):
+            a = cfg.nodes[d].ast if d != ENTRY else None
+            v = a.value if isinstance(a, ast.Assign) else None
+            if isinstance(v, ast.Call) and norm(v.func) in ("np.append", "numpy.append", "np.concatenate", "np.insert", "np.hstack"):
+                if any(isinstance(x, ast.Subscript) and isinstance(x.slice, (ast.Constant, ast.UnaryOp)) and norm(x.slice) in ("0", "-1") for x in ast.walk(v)):
+                    out.append(norm(a)[:70])
+                out += pre_sort_endpoint_appends(name, d, depth + 1)
+        return out
+
     def perm_of(v, at):
         """('perm', base, order-name) for v = base[order] with order = argsort(base ...)"""
         if isinstance(v, ast.Subscript) and isinstance(v.value, ast.Name) and isinstance(v.slice, ast.Name):
@@ -646,7 +660,14 @@ def interp_sorted(chk, prog, rule: str, only_func: str) -> int:
             px = [perm_of(v, d) for v, d in sx]
             pf = [perm_of(v, d) for v, d in sf]
             if px and all(px) and all(p[3] == p[1] for p in px):
-                if pf and all(pf) and {p[2] for p in pf} == {p[2] for p in px}:
+                # end points added BEFORE the sort from the first / last listed element belong to the wrong point once the points are permuted
+                early = []
+                for (v, d), p_ in list(zip(sx, px)) + list(zip(sf, pf if pf and all(pf) else [])):
+                    early += pre_sort_endpoint_appends(p_[1], d)
+                if early:
+                    why = (f"an end point is added from the first / last *listed* element (`{early[0]}`) before the points are sorted: after the permutation it "
+                           "belongs to another depth")
+                elif pf and all(pf) and {p[2] for p in pf} == {p[2] for p in px}:
                     ok, why = True, f"xp = {px[0][1]}[{px[0][2]}] with {px[0][2]} = argsort({px[0][1]}); fp permuted with the same order"
                 else:
                     why = "xp is sorted through an argsort but fp is not permuted with the same order: values no longer belong to their points"
@@ -672,3 +693,62 @@ def interp_sorted(chk, prog, rule: str, only_func: str) -> int:
             chk.violation(rule, where, construct, why + ": np.interp requires ascending x values and returns nonsense silently otherwise (points given in another order are "
                           "valid input)", loc=fi.loc(c))
     return n
+
+
+# --------------------------------------------------------------------------------------------- derived harvest-index parameters: first season vs reset
+
+def derived_crop_params_agreement(chk, prog, rule: str) -> int:
+    """the crop parameters that are derived from the season's calendar by a repository routine (`calculate_HIGC`, `calculate_HI_linear`) are
+    computed for the first season by compute_variables and for every later season of a thermal-time crop by reset_initial_conditions: for each
+    such attribute the two functions assign the same expressions (object names anonymised) under the same crop-type tests - a parameter the
+    reset recomputes for some crop types only keeps the first season's value for the others."""
+    from ..model import norm_anon
+    a = prog.find_func("compute_variables")
+    b = prog.find_func("reset_initial_conditions")
+    chk.fn(a.key); chk.fn(b.key)
+
+    def collect(fi):
+        flow = flow_of(fi)
+        cfg = flow.cfg
+        out = {}
+        derived = set()
+        for st in walk_no_nested(fi.node):
+            if not (isinstance(st, ast.Assign) and len(st.targets) == 1):
+                continue
+            t = st.targets[0]
+            elts = t.elts if isinstance(t, ast.Tuple) else [t]
+            if not all(isinstance(e, ast.Attribute) and isinstance(e.value, ast.Name) for e in elts):
+                continue
+            nid = flow.stmt_node.get(id(st))
+            if nid is None:
+                continue
+            key = ",".join(e.attr for e in elts)
+            guards = set()
+            for tn, lab in cfg.transitive_control_deps(nid):
+                c = cfg.nodes[tn].ast
+                if cfg.nodes[tn].kind == "test" and any(isinstance(x, ast.Attribute) and x.attr == "CropType" for x in ast.walk(c)):
+                    guards.add(f"{norm_anon(c)} [{lab}]")
+            out.setdefault(key, set()).add((norm_anon(st.value), tuple(sorted(guards))))
+            callee = prog.resolve_call(fi, st.value) if isinstance(st.value, ast.Call) else None
+            if getattr(callee, "name", "").startswith("calculate_"):
+                derived.add(key)
+                # the fall-back constants of the same attributes (the `else` arm) belong to the comparison too
+                for e in elts:
+                    derived.add(e.attr)
+        return out, derived
+
+    oa, da = collect(a)
+    ob, db = collect(b)
+    keys = sorted(k for k in (da | db) if k in oa and k in ob)
+    if not keys:
+        raise AnalysisError("derived crop parameters: no attribute is computed by a calculate_* routine in both compute_variables and reset_initial_conditions")
+    for k in keys:
+        construct = f"<crop>.{k}: first-season vs season-reset definitions"
+        if oa[k] == ob[k]:
+            chk.ok(rule, f"{b.module}:{b.qualname}", construct, f"{len(oa[k])} definition(s), same expressions under the same crop-type tests")
+        else:
+            chk.violation(rule, f"{b.module}:{b.qualname}", construct,
+                          f"the season reset defines {k} as {sorted(ob[k] - oa[k])} where the first-season initialisation has {sorted(oa[k] - ob[k])}: for the crop "
+                          "types left out, season k of a multi-season run keeps the value derived from the first season's calendar and differs from a "
+                          "single-season run started at its planting date", loc=b.loc())
+    return len(keys)
